@@ -119,6 +119,9 @@ func loadSeeds() ([]seed, error) {
 	for _, s := range shapeSeeds() {
 		seeds = append(seeds, seed{Name: "own/" + s.Name, Text: s.Text})
 	}
+	for _, s := range typeRefSeeds() {
+		seeds = append(seeds, seed{Name: "own/" + s.Name, Text: s.Text})
+	}
 	return seeds, nil
 }
 
@@ -1159,7 +1162,9 @@ func stripScratch(s, scratch string) string { return strings.ReplaceAll(s, scrat
 func run(r *evid.Run) {
 	r.Rule("seeds = every non-golden .proto under bufformat/testdata + hand-written texts covering every AST node kind + generated option-value shape files " +
 		"(enclosing construct {top-level {} literal, nested <> literal, compact field options, array} x 19 value kinds (scalars, arrays, {} and <> literals: empty, 1 field, 2 fields, nested, inner separators) " +
-		"x ':' present/absent x separator {none, ',', ';'}); " +
+		"x ':' present/absent x separator {none, ',', ';'}) + generated type-reference files (syntax {proto2, proto3, editions} x spelling {T, refs.T.U, .refs.T.U, .T} " +
+		"x position {field with each label, field without label, oneof member, group member, extension field, map value, extendee, rpc request/response with/without stream, " +
+		"extension name in option names: first/later part, plain/first compact/later compact option, message-literal key}); " +
 		"every undecorated seed also through the CLI: stdout, -d --exit-code, -w, and -o x {file, dir} x state of the target before the run {absent, formatted text, shorter, longer, unformatted input, is the input file}; " +
 		"for every seed: the undecorated text, and for EVERY token gap (before each token incl. EOF) x EVERY decoration of the " +
 		"alphabet {/*c*/ after prev token, //c after prev token, '//c */' after prev token, two-line /*c*/ after prev token, /*c*/ on own line, //c on own line, /*c*/ glued before next token, " +
@@ -1198,6 +1203,24 @@ func run(r *evid.Run) {
 		usable = append(usable, s)
 	}
 	e := &explorer{r: r}
+
+	// census of type references (position x spelling) over the usable seeds: non-vacuity of the
+	// "type reference" dimension is measured on the parsed corpus, not assumed from the generator
+	refCells := map[string]int{}
+	for _, s := range usable {
+		if s.Text == "" {
+			continue
+		}
+		if f, err := parse(s.Name, s.Text); err == nil {
+			refCensus(f, refCells)
+		}
+	}
+	r.Set("typeref_position_x_spelling_in_seeds", refCells)
+	r.Set("typeref_positions_demanded", refPositions)
+	r.Set("typeref_spellings_demanded", refSpellingClasses)
+	if miss := missingRefCells(refCells); len(miss) > 0 {
+		r.Incomplete("type-reference position x spelling cells without a seed: " + strings.Join(miss, ", "))
+	}
 
 	type work struct {
 		s *seed
